@@ -863,6 +863,9 @@ func (e *kvElection) StopWithContext(ctx context.Context, opts StopOptions) erro
 			timeout = 5 * time.Second
 		}
 	}
+	// One time budget for the whole call: the wait for background goroutines, the key
+	// deletion and the wait for OnDemote share it.
+	deadline := time.Now().Add(timeout)
 
 	done := make(chan struct{})
 	go func() {
@@ -887,7 +890,7 @@ func (e *kvElection) StopWithContext(ctx context.Context, opts StopOptions) erro
 
 	select {
 	case <-done:
-	case <-time.After(timeout):
+	case <-time.After(time.Until(deadline)):
 		log := e.getLogger()
 		log.Warn("shutdown_timeout",
 			append(e.logWithContext(ctx),
@@ -924,21 +927,41 @@ func (e *kvElection) StopWithContext(ctx context.Context, opts StopOptions) erro
 	acquiredWhileStopping := e.acquiredWhileStopping.Swap(false)
 
 	if opts.DeleteKey && (wasLeader || acquiredWhileStopping) {
-		if err := e.kv.Delete(e.key); err != nil {
+		// The store may be slow or unreachable: the deletion must not take the call
+		// beyond its time budget (it goes on in the background if it does).
+		deleted := make(chan error, 1)
+		go func() { deleted <- e.kv.Delete(e.key) }()
+		select {
+		case err := <-deleted:
+			if err != nil {
+				log := e.getLogger()
+				log.Warn("key_deletion_failed",
+					append(e.logWithContext(ctx),
+						zap.Error(err),
+						zap.String("key", e.key),
+					)...,
+				)
+			} else {
+				log := e.getLogger()
+				log.Info("key_deleted",
+					append(e.logWithContext(ctx),
+						zap.String("key", e.key),
+					)...,
+				)
+			}
+		case <-time.After(time.Until(deadline)):
 			log := e.getLogger()
-			log.Warn("key_deletion_failed",
+			log.Warn("shutdown_timeout",
 				append(e.logWithContext(ctx),
-					zap.Error(err),
-					zap.String("key", e.key),
+					zap.Duration("timeout", timeout),
+					zap.String("phase", "key_deletion"),
 				)...,
 			)
-		} else {
-			log := e.getLogger()
-			log.Info("key_deleted",
-				append(e.logWithContext(ctx),
-					zap.String("key", e.key),
-				)...,
-			)
+			notifyDemotedOnAbort()
+			return fmt.Errorf("shutdown timeout exceeded: %v", timeout)
+		case <-ctx.Done():
+			notifyDemotedOnAbort()
+			return ctx.Err()
 		}
 	}
 
@@ -965,7 +988,7 @@ func (e *kvElection) StopWithContext(ctx context.Context, opts StopOptions) erro
 
 			select {
 			case <-done:
-			case <-time.After(timeout):
+			case <-time.After(time.Until(deadline)):
 				log.Warn("ondemote_callback_timeout",
 					append(e.logWithContext(ctx),
 						zap.Duration("timeout", timeout),
